@@ -9,6 +9,12 @@ Streams
                 exact-rational conv->BN (rsqrt = oracle input); with quantizers bit for bit outside
                 the band where the float rounding of the fold moves a kernel entry across a
                 quantizer breakpoint.
+  data_format   (inside the layer stream; regression of fix 8710a09) both classes x process-wide image
+                data format {channels_last, channels_first} x data_format argument {omitted,
+                channels_last, channels_first}: `layer.data_format` is the requested layout (the
+                process-wide one when omitted) and the layer equals stock conv ->
+                BatchNormalization in that layout; nothing is special-cased, a constructor that drops
+                the argument is a VIOLATION (data_format_respected, fold_equals_conv_bn, callable).
   unfold        small sequential / branched models of folded layers: unfold_model(m).predict == m.predict.
   to_folded     stock conv+BN models (sequential, branched, non-foldable variants):
                 convert_to_folded_model / model_quantize(enable_bn_folding=True): fold-site selection
@@ -139,7 +145,7 @@ def geometries(rng, tier):
 def geometries_cross(tier):
   """the cross-cutting corners: batch 1, spatial extents of 1, kernel as large as / larger than the
   input, stride > kernel, dilation (incl. anisotropic, incl. SAME with a dilated extent larger than the
-  input), channels_first (depthwise class; the conv class ignores data_format, see the finding)"""
+  input), channels_first (both classes, explicit data_format under the default process-wide format)"""
   out = []
   for cls in ("conv", "dw"):
     for same in (False, True):
@@ -158,11 +164,32 @@ def geometries_cross(tier):
       out.append((cls, 5, 6, 2, 1, 1, 2, 3, 1, 1, same, 2, {}))                                   # 1x1 kernel, stride 2x3
       out.append((cls, 6, 5, 2, 2, 3, 1, 1, 3, 2, same, 2, {}))                                   # anisotropic dilation
     for same in (False, True):
-      if cls == "dw":
-        out.append((cls, 5, 4, 2, 2, 2, 1, 1, 1, 1, same, 1, {"cf": True}))
-        out.append((cls, 6, 5, 3, 3, 2, 2, 1, 1, 1, same, 2, {"cf": True}))
-        out.append((cls, 4, 4, 2, 2, 2, 1, 1, 2, 2, same, 2, {"cf": True, "n": 1}))
-        out.append((cls, 1, 3, 2, 1, 2, 1, 1, 1, 1, same, 3, {"cf": True}))
+      out.append((cls, 5, 4, 2, 2, 2, 1, 1, 1, 1, same, 1 if cls == "dw" else 3, {"cf": True}))
+      out.append((cls, 6, 5, 3, 3, 2, 2, 1, 1, 1, same, 2, {"cf": True}))
+      out.append((cls, 4, 4, 2, 2, 2, 1, 1, 2, 2, same, 2, {"cf": True, "n": 1}))
+      out.append((cls, 1, 3, 2, 1, 2, 1, 1, 1, 1, same, 3, {"cf": True}))
+  return out
+
+
+DATA_FORMATS = (None, "channels_last", "channels_first")
+
+
+def geometries_data_format():
+  """the data-format stream: BOTH classes under BOTH process-wide image data formats x the
+  `data_format` argument {omitted, channels_last, channels_first} x geometries on which NHWC and NCHW
+  differ in every respect (h != w != cin != cout, strides, SAME padding, dilation, rectangular kernel).
+  `cf` (the layout the layer must have) = the requested one, or the process-wide one when none is
+  requested."""
+  out = []
+  base = {"conv": [(5, 4, 3, 2, 2, 1, 1, 1, 1, False, 2), (6, 5, 2, 3, 2, 2, 1, 1, 1, True, 3),
+                   (4, 5, 3, 2, 2, 1, 1, 2, 2, True, 2), (2, 2, 2, 1, 1, 1, 1, 1, 1, False, 2)],
+          "dw": [(5, 4, 3, 2, 2, 1, 1, 1, 1, False, 2), (6, 5, 2, 3, 2, 2, 1, 1, 1, True, 1)]}
+  for cls in ("conv", "dw"):
+    for geo in base[cls]:
+      for global_cf in (False, True):
+        for df in DATA_FORMATS:
+          cf = global_cf if df is None else (df == "channels_first")
+          out.append((cls,) + geo + ({"cf": cf, "df": df, "global_cf": global_cf, "global_hold": True},))
   return out
 
 
@@ -176,6 +203,13 @@ def layer_case(rng, geo, mode, use_bias, scale, center, qk, qb, act, regime):
        "dh": dh, "dw": dw, "same": same, "cm": cm, "mode": mode, "use_bias": use_bias,
        "scale": scale, "center": center, "qk": qk, "qb": qb, "act": act, "regime": regime,
        "cf": bool(extra.get("cf", False)), "form": 0, "route": "training=False", "efd": None}
+  # `cf`: the layout the layer must have.  `df_req`: the constructor's data_format argument (None =
+  # omitted); `global_cf`: the process-wide K.image_data_format() is channels_first at construction
+  # (`global_hold`: and stays so while the layer is built and used)
+  c["global_cf"] = bool(extra.get("global_cf", False))
+  c["global_hold"] = bool(extra.get("global_hold", False))
+  c["df_req"] = extra["df"] if "df" in extra else ("channels_first" if c["cf"] else None)
+  assert c["cf"] == (c["global_cf"] if c["df_req"] is None else c["df_req"] == "channels_first")
   co = cout_of(c)
   kshape = (kh, kw, cin, cm)
   c["x"] = dy(rng, x_shape(c), 3, -2)
@@ -251,7 +285,8 @@ def lean_layer_line(tf, c, run):
           "gamma": enc(c["gamma"]) if c["scale"] else None,
           "beta": enc(c["beta"]) if c["center"] else None,
           "mean": enc(c["mean"]), "var": enc(c["var"]), "eps": core.rj(float(np.float32(c["eps"]))),
-          "rs": tab, "qk": c["qk"], "qb": c["qb"], "act": c["act"], "x": enc(c["x"])}
+          "rs": tab, "qk": c["qk"], "qb": c["qb"], "act": c["act"], "x": enc(c["x"]),
+          "df": c["df_req"], "global_cf": bool(c["global_cf"])}
   line.update(geom_fields(c))
   assert len(line["mean"]) == co
   return line
@@ -284,18 +319,35 @@ def make_layer(qkeras, c, name=None):
                 activation=(None if c["act"] == "linear" else c["act"]))
   if name is not None:
     common["name"] = name
-  if c.get("cf") and not c.get("global_cf"):
-    common.update(data_format="channels_first", axis=1)
-  elif c.get("cf"):
-    common.update(axis=1)           # data_format left to the process-level default
+  if c.get("df_req") is not None:
+    common["data_format"] = c["df_req"]   # else: left to the process-level default
+  if c.get("cf"):
+    common["axis"] = 1
   if c["cls"] == "conv":
     return qkeras.QConv2DBatchnorm(c["cm"], ks, kernel_quantizer=qk, **common)
   return qkeras.QDepthwiseConv2DBatchnorm(ks, depth_multiplier=c["cm"], depthwise_quantizer=qk, **common)
 
 
+class global_format:
+  """`K.set_image_data_format(...)` for the duration of a block (restored afterwards)"""
+
+  def __init__(self, tf, cf):
+    self.K, self.cf = tf.keras.backend, cf
+
+  def __enter__(self):
+    self.old = self.K.image_data_format()
+    self.K.set_image_data_format("channels_first" if self.cf else "channels_last")
+
+  def __exit__(self, *a):
+    self.K.set_image_data_format(self.old)
+    return False
+
+
 def build_real_layer(tf, qkeras, c):
-  """the real folded layer with the case's parameters"""
-  layer = make_layer(qkeras, c)
+  """the real folded layer with the case's parameters; constructed under the case's process-wide
+  image data format (the caller keeps it for the first call too when `global_hold`)"""
+  with global_format(tf, c.get("global_cf", False)):
+    layer = make_layer(qkeras, c)
   try:   # first call creates the variables (the inner BatchNormalization is built by the call)
     layer(tf.zeros(x_shape(c, n=1)), training=False)
   except Exception:  # pylint: disable=broad-except
@@ -383,6 +435,9 @@ def case_key(c):
        "quantized": c["qk"] is not None or c["qb"] is not None, "regime": c["regime"]}
   if c.get("cf"):
     k["data_format"] = "channels_first"
+  if c.get("global_cf"):
+    k["global_data_format"] = "channels_first"
+    k["requested"] = c.get("df_req") or "omitted"
   return k
 
 
@@ -390,6 +445,9 @@ def case_desc(c):
   d = {k: c[k] for k in ("cls", "mode", "use_bias", "scale", "center", "qk", "qb", "act", "regime", "n",
                          "h", "w", "cin", "kh", "kw", "sh", "sw", "dh", "dw", "same", "cm", "eps", "cf",
                          "form", "route", "efd")}
+  d["data_format_argument"] = c.get("df_req") or "omitted"
+  d["global_data_format_at_construction"] = "channels_first" if c.get("global_cf") else "channels_last"
+  d["global_data_format_kept_during_use"] = bool(c.get("global_hold"))
   d["eps"] = float(d["eps"])
   for k in ("kernel", "bias", "gamma", "beta", "mean", "var", "x"):
     d[k] = [float(v) for v in np.asarray(c[k]).ravel()[:64]]
@@ -444,11 +502,19 @@ def stream_layers(run, tf, qkeras, rng, tier):
         if qk is None and qb is None:
           qk = QUANTS[0]
       cases.append(layer_case(rng, geo, mode, use_bias, scale, center, qk, qb, act, "exact"))
-  # the conv class asked for channels_first (finding C15-conv-data-format-ignored): a shape on which
-  # the channels_last layer that is really built runs at all (n, 2, 2, 2 with 2 filters)
-  for (kk, same) in ((1, False), (2, True)):
-    cases.append(layer_case(rng, ("conv", 2, 2, 2, kk, kk, 1, 1, 1, 1, same, 2, {"cf": True}),
-                            "ema_stats_folding", bool(kk % 2), True, True, None, None, "linear", "exact"))
+  # data-format stream (regression of fix 8710a09: QConv2DBatchnorm dropped its data_format argument):
+  # both classes x both process-wide formats x {omitted, channels_last, channels_first}; two thirds
+  # un-quantized and linear (judged against stock conv -> BatchNormalization in the expected layout),
+  # one third quantized (judged against the property's quantized form)
+  for gi, geo in enumerate(geometries_data_format()):
+    mode = ("ema_stats_folding", "batch_stats_folding")[(gi // 6 + gi) % 2]
+    use_bias, scale, center = bool((gi // 3 + gi) % 2), bool((gi + gi // 6) % 3), bool((gi + 1) % 5)
+    if gi % 3 == 2 and geo[4] * geo[5] > 1:
+      qk, qb = QUANTS[gi % len(QUANTS)], (QUANTS[(gi + 3) % len(QUANTS)] if gi % 2 else None)
+      act = "relu" if gi % 4 == 1 else "linear"
+    else:
+      qk, qb, act = None, None, "linear"
+    cases.append(layer_case(rng, geo, mode, use_bias, scale, center, qk, qb, act, "exact"))
   # the same values in other argument forms / by other inference routes
   for ci, c in enumerate(cases):
     c["form"] = 1 if (ci % 3 == 1) else 0
@@ -487,18 +553,41 @@ def stream_layers(run, tf, qkeras, rng, tier):
       run.count("geom:stride>kernel")
     if c["cf"]:
       run.count("geom:channels_first:" + c["cls"])
+    if c["global_hold"]:
+      run.count("data_format:%s:global=%s:argument=%s" % (c["cls"], "channels_first" if c["global_cf"] else "channels_last",
+                                                         c["df_req"] or "omitted"))
     run.count("route:" + c["route"])
     run.count("argform:%d" % c["form"])
     x = c["x"]
     err = None
+    layer = None
     try:
-      layer = build_real_layer(tf, qkeras, c)
-      y_impl = call_layer(tf, layer, x, c["route"])
-      fw = layer.get_folded_weights()
-      fk_impl, fb_impl = fw[0].numpy(), fw[1].numpy()
-      it_after = int(layer._iteration.numpy())   # pylint: disable=protected-access
+      with global_format(tf, c["global_cf"] and c["global_hold"]):
+        layer = build_real_layer(tf, qkeras, c)
+        y_impl = call_layer(tf, layer, x, c["route"])
+        fw = layer.get_folded_weights()
+        fk_impl, fb_impl = fw[0].numpy(), fw[1].numpy()
+        it_after = int(layer._iteration.numpy())   # pylint: disable=protected-access
     except Exception as e:  # pylint: disable=broad-except
       err = "%s: %s" % (type(e).__name__, str(e)[:200])
+    # ---- the layout that was built (model: ctorCfg) and the one that was asked for (the requested
+    #      one, or the process-wide one when the argument is omitted) — judged even when the wrongly
+    #      built layer cannot run on the input
+    if layer is not None:
+      built_cf = (layer.data_format == "channels_first")
+      run.compared += 1
+      if built_cf != bool(o["built_cf"]):
+        run.disagree("layer:data_format", case_desc(c), layer.data_format, "channels_first" if o["built_cf"] else "channels_last")
+      if built_cf != c["cf"]:
+        run.count("clause:data_format_respected:FAILS")
+        run.violate("data_format_respected", {"class": CLASSNAME[c["cls"]], "why": "data_format-ignored",
+                                              "requested": c["df_req"] or "omitted",
+                                              "global": "channels_first" if c["global_cf"] else "channels_last"},
+                    {"case": case_desc(c), "layer.data_format": layer.data_format,
+                     "expected": "channels_first" if c["cf"] else "channels_last"},
+                    mirrored=(built_cf == bool(o["built_cf"])))
+      else:
+        run.count("clause:data_format_respected:holds")
     x = tf.constant(c["x"])
     y_model = dec(o["y"])
     # ---- center=False (repaired by d42f1d8: beta None -> 0): same checks as every other case
@@ -507,17 +596,6 @@ def stream_layers(run, tf, qkeras, rng, tier):
     if err is not None:
       run.violate("callable", dict(key, why="raises"), {"case": case_desc(c), "error": err}, mirrored=False)
       continue
-    # ---- the layout that was built (model: ctorCfg) and the one that was asked for
-    built_cf = (layer.data_format == "channels_first")
-    run.compared += 1
-    if built_cf != bool(o["built_cf"]):
-      run.disagree("layer:data_format", case_desc(c), layer.data_format, "channels_first" if o["built_cf"] else "channels_last")
-    if built_cf != c["cf"]:
-      run.count("clause:data_format_respected:FAILS")
-      run.violate("data_format_respected", {"class": CLASSNAME[c["cls"]], "why": "data_format-ignored",
-                                            "requested": "channels_first" if c["cf"] else "channels_last"},
-                  {"case": case_desc(c), "layer.data_format": layer.data_format},
-                  mirrored=(built_cf == bool(o["built_cf"])))
     # ---- an inference call is not a training step: the step counter stays at -1
     if it_after != -1:
       run.violate("inference_is_not_a_step", dict(key, route=c["route"]),
@@ -1090,7 +1168,7 @@ def slot_exists(c, slot):
 HIST_GEOS = [
     ("conv", 5, 5, 2, 2, 2, 1, 1, 1, 1, False, 3, {}),
     ("conv", 6, 5, 2, 3, 2, 2, 2, 1, 1, True, 2, {"n": 1}),
-    ("conv", 4, 4, 2, 2, 2, 1, 1, 2, 2, True, 2, {}),
+    ("conv", 4, 5, 2, 2, 2, 1, 1, 2, 2, True, 3, {"cf": True}),
     ("conv", 3, 3, 3, 1, 1, 1, 1, 1, 1, False, 2, {}),
     ("dw", 5, 5, 2, 2, 2, 1, 1, 1, 1, False, 1, {}),
     ("dw", 6, 5, 2, 3, 2, 2, 2, 1, 1, True, 2, {"n": 1}),
@@ -1217,7 +1295,10 @@ def stream_history(run, tf, qkeras, rng, tier):
                          "relu" if (gi + mi + rep) % 5 == 4 else "linear", "exact")
           c["form"] = (gi + rep) % 2
           c["efd"] = (None, 0, 3, -1)[(gi + 2 * mi + rep) % 4]
+          # channels_first histories: explicit argument under the default process-wide format, or the
+          # argument omitted under a process-wide channels_first (restored before the layer is used)
           c["global_cf"] = bool(c["cf"] and (mi + rep) % 2)
+          c["df_req"] = None if c["global_cf"] else ("channels_first" if c["cf"] else (None, "channels_last")[(gi + mi) % 2])
           if is_fixed:
             plan = [dict(o) for o in fixed[nfixed[c["cls"]] % len(fixed)]] + plan_history(rng, c, 3)
             nfixed[c["cls"]] += 1
@@ -1258,14 +1339,18 @@ def stream_history(run, tf, qkeras, rng, tier):
         run.disagree("history:" + ro["k"], {"history": h["desc"], "step": oi, "op": h["ops_desc"][oi]},
                      {kk: ([float(v) for v in vv[:12]] if isinstance(vv, list) else vv) for kk, vv in ro.items()},
                      {kk: ([float(F(int(a), int(b))) for a, b in vv[:12]] if isinstance(vv, list) else vv) for kk, vv in mo.items()})
-    run.compared += 1
+    run.compared += 2
     if int(o["iteration"]) != h["iteration"]:
       run.disagree("history:iteration", h["desc"], h["iteration"], int(o["iteration"]))
+    if h["built_cf"] is not None and h["built_cf"] != bool(o["built_cf"]):
+      run.disagree("history:data_format", h["desc"], "channels_first" if h["built_cf"] else "channels_last",
+                   "channels_first" if o["built_cf"] else "channels_last")
     for (clause, key, detail, oi) in h["pending"]:
       run.violate(clause, dict(base, **key),
                   dict(detail, history=h["desc"], step=oi,
                        op=(h["ops_desc"][oi] if oi is not None and oi < len(h["ops_desc"]) else None)),
-                  mirrored=bool(oi is not None and oi < len(agree) and agree[oi]))
+                  mirrored=(bool(oi is not None and oi < len(agree) and agree[oi]) or
+                            (clause == "data_format_respected" and h["built_cf"] == bool(o["built_cf"]))))
 
 
 def run_history(run, tf, qkeras, bn_folding_utils, rng, c, plan, tmpdir, hid):
@@ -1273,19 +1358,38 @@ def run_history(run, tf, qkeras, bn_folding_utils, rng, c, plan, tmpdir, hid):
   K = tf.keras.backend
   L = tf.keras.layers
   K.clear_session()
-  if c.get("global_cf"):        # process-level default resolved at construction time, restored before use
-    K.set_image_data_format("channels_first")
-  try:
-    lay = make_layer(qkeras, c, name="fold")
-  finally:
-    K.set_image_data_format("channels_last")
-  inp = L.Input(x_shape(c)[1:], name="in")
-  m = tf.keras.Model(inp, lay(inp))
+  pending = []
   cur = {k: np.array(c[k]) for k in PKEYS}
-  set_folded_params(c, lay, cur)
+  lay = None
+  try:
+    with global_format(tf, c.get("global_cf", False)):   # resolved at construction time, restored before use
+      lay = make_layer(qkeras, c, name="fold")
+    inp = L.Input(x_shape(c)[1:], name="in")
+    m = tf.keras.Model(inp, lay(inp))
+    set_folded_params(c, lay, cur)
+    setup_error = None
+  except Exception as e:  # pylint: disable=broad-except
+    setup_error = "%s: %s" % (type(e).__name__, str(e)[:300])
+  built_cf = None if lay is None else (lay.data_format == "channels_first")
+  if built_cf is not None and built_cf != c["cf"]:
+    run.count("clause:data_format_respected:FAILS")
+    pending.append(("data_format_respected", {"why": "data_format-ignored", "requested": c["df_req"] or "omitted",
+                                              "global": "channels_first" if c.get("global_cf") else "channels_last"},
+                    {"layer.data_format": lay.data_format, "expected": "channels_first" if c["cf"] else "channels_last"}, None))
+  if setup_error is not None:
+    # the layer cannot even be put into a model on an input of the expected layout
+    pending.append(("callable", {"observer": "construction", "why": "raises"}, {"error": setup_error}, None))
+    line = {"op": "history", "mode": c["mode"], "kernel": enc(c["kernel"]),
+            "bias": enc(c["bias"]) if c["use_bias"] else None, "gamma": enc(c["gamma"]) if c["scale"] else None,
+            "beta": enc(c["beta"]) if c["center"] else None, "mean": enc(c["mean"]), "var": enc(c["var"]),
+            "eps": core.rj(float(np.float32(c["eps"]))), "rs": rs_table(tf, c["var"], c["eps"])[0], "qk": c["qk"], "qb": c["qb"],
+            "act": c["act"], "iteration": -1, "ops": [], "df": c["df_req"], "global_cf": bool(c.get("global_cf"))}
+    line.update(geom_fields(c))
+    return {"c": c, "line": line, "obs": [], "pending": pending, "ops_desc": [], "iteration": -1, "built_cf": built_cf,
+            "desc": {"layer": case_desc(c), "plan": [o["k"] for o in plan]}}
   iteration = -1
   snap = None
-  pending, obs, ops_json, ops_desc = [], [], [], []
+  obs, ops_json, ops_desc = [], [], []
   last_mut, seen_obs = "none", False
   rstab = []
   rsmap = {}
@@ -1306,6 +1410,9 @@ def run_history(run, tf, qkeras, bn_folding_utils, rng, c, plan, tmpdir, hid):
     rs_exact[0] = (ex == nn)
   note_var(cur["var"])
   run.count("history:%s:%s%s" % (c["cls"], c["mode"][:3], ":channels_first" if c["cf"] else ""))
+  if c["cf"] or c["df_req"]:
+    run.count("history:data_format:%s:global=%s:argument=%s" % (c["cls"], "channels_first" if c.get("global_cf") else "channels_last",
+                                                                c["df_req"] or "omitted"))
 
   def key(observer):
     # one line per (class, observer, kind of the last replacement); the rest goes into the detail
@@ -1316,7 +1423,7 @@ def run_history(run, tf, qkeras, bn_folding_utils, rng, c, plan, tmpdir, hid):
 
   def twin():
     """a FRESH object of the same configuration holding the current parameters"""
-    c2 = dict(c, global_cf=False, qk=qcur["qk"], qb=qcur["qb"])
+    c2 = dict(c, global_cf=False, df_req="channels_first" if c["cf"] else "channels_last", qk=qcur["qk"], qb=qcur["qb"])
     t = make_layer(qkeras, c2)
     t(tf.zeros(x_shape(c, n=1)), training=False)
     set_folded_params(c, t, cur)
@@ -1571,11 +1678,11 @@ def run_history(run, tf, qkeras, bn_folding_utils, rng, c, plan, tmpdir, hid):
           "gamma": enc(c["gamma"]) if c["scale"] else None,
           "beta": enc(c["beta"]) if c["center"] else None,
           "mean": enc(c["mean"]), "var": enc(c["var"]), "eps": core.rj(float(np.float32(c["eps"]))),
-          "rs": tab, "qk": c["qk"], "qb": c["qb"], "act": c["act"], "iteration": -1, "ops": ops_json}
+          "rs": tab, "qk": c["qk"], "qb": c["qb"], "act": c["act"], "iteration": -1, "ops": ops_json,
+          "df": c["df_req"], "global_cf": bool(c.get("global_cf"))}
   line.update(geom_fields(c))
   d = case_desc(c)
-  d["global_data_format_at_construction"] = "channels_first" if c.get("global_cf") else "channels_last"
-  return {"c": c, "line": line, "obs": obs, "pending": pending, "ops_desc": ops_desc, "iteration": iteration,
+  return {"c": c, "line": line, "obs": obs, "pending": pending, "ops_desc": ops_desc, "iteration": iteration, "built_cf": built_cf,
           "desc": {"layer": d, "plan": [o["k"] for o in plan]}}
 
 
@@ -1764,11 +1871,14 @@ def run(run: core.Run, tier: str):
   import qkeras
   rng = np.random.default_rng(run.seed)
   run.extra["rule"] = (
-      "layer stream (code with fix d42f1d8): {QConv2DBatchnorm, QDepthwiseConv2DBatchnorm} x {ema,batch}_stats_folding x use_bias x "
+      "layer stream (code with fixes d42f1d8, 8710a09): {QConv2DBatchnorm, QDepthwiseConv2DBatchnorm} x {ema,batch}_stats_folding x use_bias x "
       "scale x center x geometry {valid,same} x {plain, strided, dilated, rectangular, 1x1, depth multiplier} x "
       "{no quantizer, kernel+bias quantized_bits, kernel only, bias only} x {linear, relu}, plus the corner geometries "
-      "(batch 1, extents of 1, kernel >= input, stride > kernel, dilation with SAME, channels_first), other argument "
-      "forms and five inference routes; exact regime (eps=2^-10, var=4^j-eps, short dyadic gamma incl. 0 and negative) "
+      "(batch 1, extents of 1, kernel >= input, stride > kernel, dilation with SAME, channels_first for both classes), the "
+      "data-format stream (both classes x process-wide image data format {channels_last, channels_first} x data_format "
+      "argument {omitted, channels_last, channels_first} x 4 / 2 geometries: layer.data_format must be the requested layout, "
+      "or the process-wide one when omitted, and the layer must equal stock conv -> BatchNormalization in that layout), "
+      "other argument forms and five inference routes; exact regime (eps=2^-10, var=4^j-eps, short dyadic gamma incl. 0 and negative) "
       "compared bit for bit with the Lean model, float regime (log-uniform variances 1e-7..20 incl. 0, zero gammas) within "
       "the stated tolerance / outside the breakpoint band.  unfold stream: 7 templates incl. same-class chains with "
       "different quantizer options per layer, each model object unfolded as built and again after set_weights.  "
